@@ -152,7 +152,8 @@ func exploreClean(c *core.Ctx, label string, sc explore.Scenario, idx int, st3 *
 	}
 	report(st, "DPOR")
 	if (thoroughTier && idx%16 == 0) || idx%64 == 0 {
-		s2 := explore.DelayBounded(sc, 1, explore.Opts{MaxExec: 3000, Budget: 20 * time.Second})
+		// auxiliary: a prefix (in DFS order) of the one-deviation space, no independence assumed; DPOR above is the deciding exploration
+		s2 := explore.DelayBounded(sc, 1, explore.Opts{MaxExec: 600, Budget: 20 * time.Second})
 		st3.s2 += int64(s2.Executions)
 		c.Executions += int64(s2.Executions)
 		c.Transitions += int64(s2.Events)
@@ -251,7 +252,7 @@ func stratPipeUnit(c *core.Ctx, e *cat.Strat, cfg []float64) {
 func init() {
 	core.Register(&core.Check{
 		ID:   "C03",
-		Rule: "for every catalogued indicator and strategy (base, decorated, compound) x every configuration of the deep period box x input lengths {0,1,w-1..w+3,2w+2} (all of 0..2w+2 in the thorough tier) x input channel capacity {0,1,3} x unequal input lengths for multi-input indicators (each input in turn up to 6 shorter / 2 longer): the network producers -> pipeline -> independent readers is explored by DPOR with sleep sets over ALL Mazurkiewicz traces (a clean Kahn network has exactly one, which DPOR establishes dynamically by finding no conflicting co-enabled operations), plus a delay-bounded (d<=1) search without independence assumptions on every 64th scenario (16th in the thorough tier); oracle at quiescence: no goroutine left, every output closed, no buffered leftovers, no panic, identical outputs on every schedule, no happens-before race; states = scenarios, transitions = scheduler events",
+		Rule: "for every catalogued indicator and strategy (base, decorated, compound) x every configuration of the deep period box x input lengths {0,1,w-1..w+3,2w+2} (all of 0..2w+2 in the thorough tier) x input channel capacity {0,1,3} x unequal input lengths for multi-input indicators (each input in turn up to 6 shorter / 2 longer): the network producers -> pipeline -> independent readers is explored by DPOR with sleep sets over ALL Mazurkiewicz traces (a clean Kahn network has exactly one, which DPOR establishes dynamically by finding no conflicting co-enabled operations), plus an auxiliary delay-bounded (d<=1) search without independence assumptions, cut at 600 executions, on every 64th scenario (16th in the thorough tier); oracle at quiescence: no goroutine left, every output closed, no buffered leftovers, no panic, identical outputs on every schedule, no happens-before race; states = scenarios, transitions = scheduler events",
 		Assume: []string{"input values are a fixed irregular series (termination depends on lengths, not values)", "the scheduler models Go's channel/WaitGroup/Mutex semantics at operation granularity; the number of OS threads is irrelevant for a data-race-free program and race freedom is checked on every explored execution"},
 		Units: func(tier string) []core.Unit {
 			var us []core.Unit
